@@ -17,22 +17,36 @@ def gen_spec(rng, max_channels=3, max_samples=3, max_bins=4, want=None, simple=F
     (parameter sets are created by modifier type — histosys, lumi, normfactor, normsys, shapefactor, shapesys, staterror — then by name, so
     avoiding SYS_POOL and 'lumi' puts the Poisson-constrained shapesys block *first* in the auxiliary data)."""
     nch = rng.randint(1, max_channels)
+    gap_layout = (not simple) and max_channels >= 3 and rng.random() < 0.12
+    if gap_layout: nch = 3
     chan_names = rng.sample(['SR', 'CR1', 'CR2', 'VR', 'A_ch'], nch)
     channels = []
     shapefactor_bins = {}   # name -> nbins
     used_types = set()
+    # one MC-statistical name shared by several channels: declared there by one and the same sample (construction refuses declaring
+    # samples whose channel sets differ); one parameter per bin of every declaring channel, and channels that do not declare it may lie
+    # between them in the configuration's channel order
+    shared_stat = set(rng.sample(chan_names, rng.randint(2, nch))) if (nch >= 2 and not simple and rng.random() < 0.25) else set()
+    if gap_layout: shared_stat = {min(chan_names), max(chan_names)}       # the channel that does not declare it sorts between the two that do
+    shared_sample = rng.choice(SAMPLE_POOL[1:])
     for cname in chan_names:
         nb = rng.randint(1, max_bins)
         ns = rng.randint(1, max_samples)
         snames = rng.sample(SAMPLE_POOL, ns)
         if 'signal' not in snames and cname == chan_names[0]:
             snames[0] = 'signal'
+        if cname in shared_stat and shared_sample not in snames:
+            k = max(i for i, n_ in enumerate(snames) if n_ != 'signal') if any(n_ != 'signal' for n_ in snames) else None
+            if k is not None: snames[k] = shared_sample
+            else: snames.append(shared_sample)
         stat_samples = [s for s in snames if rng.random() < 0.5]
         samples = []
         for sname in snames:
             data = [rnd_yield(rng) for _ in range(nb)]
             mods = []
-            if sname == 'signal':
+            if 'normfactor' in avoid:
+                pass
+            elif sname == 'signal':
                 mods.append({'name': 'mu', 'type': 'normfactor', 'data': None})
             elif rng.random() < 0.25:
                 mods.append({'name': rng.choice(['mu', 'k_bkg']), 'type': 'normfactor', 'data': None})
@@ -56,7 +70,10 @@ def gen_spec(rng, max_channels=3, max_samples=3, max_bins=4, want=None, simple=F
                     if rng.random() < 0.25:
                         unc[rng.randrange(nb)] = 0.0     # zero-uncertainty bin -> fixed gamma
                     mods.append({'name': f'ss_{cname}_{sname}', 'type': 'shapesys', 'data': unc})
-                if sname in stat_samples:
+                if cname in shared_stat and sname == shared_sample:
+                    unc = [round(d * rng.uniform(0.02, 0.2), 3) for d in data]
+                    mods.append({'name': 'staterror_shared', 'type': 'staterror', 'data': unc})
+                elif sname in stat_samples:
                     unc = [round(d * rng.uniform(0.02, 0.2), 3) for d in data]
                     mods.append({'name': f'staterror_{cname}', 'type': 'staterror', 'data': unc})
                 if rng.random() < 0.15:
